@@ -234,7 +234,7 @@ func ruleC14(w *World, r *Report) {
 	{
 		var okRet []ssa.Instruction
 		for _, ret := range returnsOf(parseFAR) {
-			if len(ret.Results) == 1 && isNilConst(ret.Results[0]) {
+			if len(ret.Results) == 1 && isNilConst(res(ret, 0)) {
 				okRet = append(okRet, ret)
 			}
 		}
